@@ -285,9 +285,11 @@ Proof.
   (* the loop over the pairs *)
   all: rewrite bind_unfold; norm_range.
   all: rewrite (pair_loop0 _ _ _ ltb mate_o _ _ cxpb); [| intros k pre a b r s0 Hk; unfold cx_step; msim ].
-  all: destruct (mate_loop ltb mate_o cxpb s1 off) as [s2 [e|off2]]; cbv beta iota zeta; [reflexivity|].
-  (* the loop over the individuals *)
+  all: destruct (mate_loop ltb mate_o cxpb s1 off) as [s2 [e|off2]] eqn:Eml; cbv beta iota zeta; [reflexivity|].
+  (* the loop over the individuals; its bound may be a local bound to len(offspring) BEFORE the first loop
+     (size = len(offspring) hoisted): the first loop keeps the length *)
   all: rewrite bind_unfold; norm_range.
+  all: try rewrite <- (mate_loop_length _ _ _ ltb mate_o _ _ _ _ _ Eml).
   all: rewrite (single_loop0 _ _ _ ltb mut_o _ _ mutpb); [| intros k pre a r s0 Hk; unfold mut_step; msim ].
   all: destruct (mut_loop ltb mut_o mutpb s2 off2) as [s3 [e|off3]]; reflexivity.
 Qed.
